@@ -16,6 +16,7 @@ import (
 
 	cli "github.com/jawher/mow.cli"
 	"github.com/jawher/mow.cli/internal/zverif/vsched"
+	"github.com/jawher/mow.cli/internal/zverif/ref"
 )
 
 // C20: applications are independent and deterministic.
@@ -429,7 +430,73 @@ func soloOutcomes() []string {
 }
 
 // ---- (a) sequential histories
+func argvReuseDecls() []*ref.Decl {
+	std := ref.Std()
+	rev := ref.Std()
+	rev.Name = "std-reversed"
+	for i, j := 0, len(rev.Opts)-1; i < j; i, j = i+1, j-1 {
+		rev.Opts[i], rev.Opts[j] = rev.Opts[j], rev.Opts[i]
+	}
+	return []*ref.Decl{std, rev}
+}
+
+func argvReuseCase(c *Ctx, d *ref.Decl, di int, spec string, argv []string, spare int) {
+	want := append([]string{"app"}, argv...)
+	full := make([]string, len(want), len(want)+spare)
+	copy(full, want)
+	o1 := runLang(d, spec, nil, langOpts{fullArgv: full})
+	c.Count("evaluations", 1)
+	c.Count("argv_reuse_pairs", 1)
+	key := fmt.Sprintf("spec=%q options declared in the order of %s, argv=%q", spec, d.Name, argv)
+	cs := Case{"mode": "argv-reuse", "spec": spec, "argv": argv, "decl": di, "spare": cap(full) - len(full)}
+	if !sameStrings(full, want) {
+		c.Violation("C20", key, cs, "Run leaves the caller's argument vector as it was", fmt.Sprintf("after Run the caller's slice reads %q", full))
+		return
+	}
+	o2 := runLang(d, spec, nil, langOpts{fullArgv: full})
+	a, b := o1.Summary()+" "+ref.BindTextOf(d, o1.Lists)+fmt.Sprint(o1.SetByUser), o2.Summary()+" "+ref.BindTextOf(d, o2.Lists)+fmt.Sprint(o2.SetByUser)
+	if o1.Accepted {
+		c.Count("nontrivial", 1)
+	}
+	if a != b {
+		c.Violation("C20", key+" (application rebuilt, run with the same slice)", cs, "as the first run: "+a, b)
+	}
+}
+
+// argvReuse: the argument vector belongs to the caller. An application built afresh and run with the very same
+// slice a previous application was run with must end the same way, and the slice must read the same afterwards
+// (every (spec, argv) pair: fresh application, Run(slice); slice compared with a copy; application rebuilt,
+// Run(the same slice); both observations compared). Two declaration orders of the options, because which option's
+// matcher meets a token first depends on it; slices with cap == len and with spare capacity.
+func argvReuse(c *Ctx) {
+	toks := []string{"x", "--", "-a", "-b", "-ab", "-ao", "-ov", "-o", "--out", "v"}
+	n := 3
+	argvs := ref.Argvs(toks, n)
+	g := ref.NewSpecGen(leavesFull)
+	idx, ns := 0, 0
+	for size := 1; size <= 2; size++ {
+		for _, spec := range g.Specs(size) {
+			ns++
+			for di, d := range argvReuseDecls() {
+				idx++
+				if !c.Mine(idx) || !c.Begin("argv-reuse", spec, d.Name) {
+					continue
+				}
+				for ai, argv := range argvs {
+					c.Beat()
+					argvReuseCase(c, d, di, spec, argv, (ai+di)%2*3)
+				}
+			}
+		}
+	}
+	if c.Shard == 0 {
+		c.Note("argv reuse", fmt.Sprintf("%d specs (size<=2 over %q) x 2 declaration orders x %d argvs (length<=%d over %q): fresh application run with a caller-owned slice (cap == len or 3 spare), slice unchanged afterwards, rebuilt application run with the same slice ends the same", ns, leavesFull, len(argvs), n, toks))
+	}
+}
+
 func runHistories(c *Ctx) {
+	argvReuse(c)
+	c20Install()
 	solo := soloOutcomes()
 	if c.Shard == 0 && c.Begin("determinism") {
 		// rebuilding and rerunning the same application gives the same outcome, every time
@@ -542,6 +609,9 @@ func replayIndep(c *Ctx, cs Case) {
 				return
 			}
 		}
+	case "argv-reuse":
+		di := cInt(cs, "decl")
+		argvReuseCase(c, argvReuseDecls()[di], di, cStr(cs, "spec"), cStrs(cs, "argv"), cInt(cs, "spare"))
 	case "hist":
 		var hist []int
 		for _, x := range cs["history"].([]interface{}) {
